@@ -87,6 +87,73 @@ def override_checks(spec, cfg):
     return bad
 
 
+def poi_checks(poi, cfg):
+    """the parameter of interest is addressed through the same layout as everything else: poi_index is the start of the
+    POI's slice, the name reported there is the POI's (a one-component non-scalar set is listed as name[0])"""
+    bad = []
+    pi = cfg['poi_index']
+    if poi is None:
+        if pi is not None:
+            bad.append(('poi-index', 'no POI requested, poi_index = %r' % (pi,)))
+        return bad
+    if cfg.get('poi_name') != poi:
+        bad.append(('poi-index', 'poi_name %r, requested %r' % (cfg.get('poi_name'), poi)))
+    if poi not in cfg['par_order']:
+        return bad + [('poi-index', 'POI %s not in par_order' % poi)]
+    a, b = cfg['par_slices'][cfg['par_order'].index(poi)]
+    if pi != a:
+        bad.append(('poi-index', 'poi_index = %r, slice of %s is [%d,%d) (par_order %r)' % (pi, poi, a, b, cfg['par_order'])))
+    elif not (isinstance(pi, int) and 0 <= pi < len(cfg['par_names'])) or cfg['par_names'][pi] not in (poi, poi + '[0]'):
+        bad.append(('poi-index', 'par_names[poi_index] = %r, POI is %s' % (cfg['par_names'][pi] if isinstance(pi, int) and 0 <= pi < len(cfg['par_names']) else None, poi)))
+    return bad
+
+
+def reread_checks(model, cfg):
+    """every accessor of the configuration read a second time on the same object gives the same answer"""
+    again = engine.impl_config(model)
+    d = [k for k in cfg if cfg[k] != again.get(k)]
+    return [('accessor-not-idempotent:' + d[0], 'second read of the configuration of one model object differs in %r: %r then %r' % (d, cfg[d[0]], again.get(d[0])))] if d else []
+
+
+def workspace_data_checks(ws, wm, wsd0, obs, cfg):
+    """Workspace.data read repeatedly (with and without auxiliary data) on one workspace object; expected layout from the
+    observations handed in (pristine copy), the reported channel order and the reported auxiliary data.
+    returns (first full data vector, list of (signature, detail, observed, expected))"""
+    bad = []
+    expect_main = [float(x) for cn in cfg['channels'] for x in obs[cn]]
+    expect_full = expect_main + [float(x) for x in cfg['auxdata']]
+    reads = [('data(model)', True), ('data(model, include_auxdata=False)', False), ('data(model) [second call]', True),
+             ('data(model, include_auxdata=False) [second call]', False), ('data(model) [third call]', True)]
+    first = None
+    for k, (what, aux) in enumerate(reads):
+        got = [float(x) for x in (ws.data(wm) if aux else ws.data(wm, include_auxdata=False))]
+        if first is None:
+            first = got
+        exp = expect_full if aux else expect_main
+        if got != exp:
+            sig = 'workspace-data-layout' if k == 0 else 'workspace-data-not-idempotent'
+            bad.append((sig, 'Workspace.%s does not follow the model\'s channel order%s' % (what, ' + auxdata' if aux else ''), got, exp))
+            break
+    now = {o['name']: [float(x) for x in o['data']] for o in ws['observations']}
+    was = {o['name']: [float(x) for x in o['data']] for o in wsd0['observations']}
+    stored = {cn: [float(x) for x in v] for cn, v in getattr(ws, 'observations', {}).items()}
+    if now != was or (stored and stored != was):
+        bad.append(('workspace-data-mutates-workspace', 'reading Workspace.data changed the observations stored in the workspace', stored if stored != was else now, was))
+    return first, bad
+
+
+def load_corpus():
+    import glob, os
+    out = []
+    if os.environ.get('VERIF_NO_CORPUS'):        # (testing the generator alone)
+        return out
+    for f in sorted(glob.glob(os.path.join(core.VERIF, 'corpus', 'C12', '*.json'))):
+        c = json.load(open(f))
+        c.setdefault('st', dict(normsys='code4', histosys='code4p'))
+        out.append(c)
+    return out
+
+
 def run(ctx):
     import pyhf
     logging.getLogger('pyhf').setLevel(logging.CRITICAL)
@@ -98,8 +165,10 @@ def run(ctx):
     cases = c01.gen_cases(ctx, n)
     for c in cases:
         c['st'] = dict(normsys='code4', histosys='code4p')
-    exprs, impls = [], []
-    stats = dict(overrides=0, permuted=0, build_roundtrips=0, build_known=0)
+    cases = load_corpus() + cases
+    exprs, impls, wsdatas = [], [], []
+    stats = dict(overrides=0, permuted=0, build_roundtrips=0, build_known=0, corpus=len(cases) - n, poi_kinds={}, poi_after_multicomponent=0,
+                 poi_switches=0, data_reads=0)
     sigs = set()
     found = False
     evaluations = 0
@@ -113,18 +182,24 @@ def run(ctx):
             ctx.violation('wellformed-refused:' + core.exc_enum(e), 'well-formed specification refused: %s' % str(e)[:200], dict(case=case))
             found = True
             impls.append(None)
+            wsdatas.append(None)
             exprs.append('run_build %s' % engine.spec_to_coq(spec, poi))
             continue
         cfg = engine.impl_config(m)
         impls.append(cfg)
+        wsdatas.append(None)
         evaluations += 1
+        kind = engine.par_info(spec).get(poi, ('none',))[0]
+        stats['poi_kinds'][kind] = stats['poi_kinds'].get(kind, 0) + 1
+        if poi in cfg['par_order'] and any(b - a > 1 for a, b in cfg['par_slices'][:cfg['par_order'].index(poi)]):
+            stats['poi_after_multicomponent'] += 1
         if spec != before:
             ctx.violation('model-mutates-spec', 'pyhf.Model modified the caller\'s specification', dict(case=case))
             found = True
         stats['overrides'] += len(spec.get('parameters', []))
         if engine.nontrivial(spec) or spec.get('parameters'):
             sigs.add(engine.shape_signature(spec))
-        for sig, detail in partition_checks(cfg) + override_checks(spec, cfg):
+        for sig, detail in partition_checks(cfg) + override_checks(spec, cfg) + poi_checks(poi, cfg) + reread_checks(m, cfg):
             ctx.violation(sig, detail, dict(case=case, config={k: v for k, v in cfg.items() if k != 'sigmas'}, theorem='C12_par_slices_tile / C12_overrides_verbatim'))
             found = True
         exprs.append(engine.case_expr(spec, poi, case['st'], []))
@@ -135,20 +210,40 @@ def run(ctx):
         try:
             ws = pyhf.Workspace(wsd)
             wm = ws.model(modifier_settings={'normsys': {'interpcode': 'code4'}, 'histosys': {'interpcode': 'code4p'}})
-            data = ws.data(wm)
+            wcfg = engine.impl_config(wm)
+            data, dbad = workspace_data_checks(ws, wm, wsd0, obs, wcfg)
+            stats['data_reads'] += 5
         except Exception as e:
             ctx.violation('workspace-refused:' + core.exc_enum(e), 'workspace of a well-formed spec refused: ' + str(e)[:200], dict(case=case, workspace=wsd))
             found = True
             continue
+        wsdatas[-1] = dict(data=data, obs=obs)
+        for sig, detail, got, exp in dbad:
+            ctx.violation(sig, detail, dict(case=case, workspace=wsd0, obs=obs, impl=got, expected=exp, theorem='C12_workspace_data_layout'))
+            found = True
         if wsd != wsd0:
             ctx.violation('workspace-mutates-spec', 'Workspace/model()/data() modified the caller\'s document', dict(case=case))
             found = True
-        wcfg = engine.impl_config(wm)
-        expect_data = [x for cn in wcfg['channels'] for x in obs[cn]] + list(wcfg['auxdata'])
-        if [float(x) for x in data] != [float(x) for x in expect_data]:
-            ctx.violation('workspace-data-layout', 'Workspace.data does not follow the model\'s channel order + auxdata',
-                          dict(case=case, workspace=wsd, impl=data, expected=expect_data, theorem='C12_workspace_data_layout'))
+        for sig, detail in poi_checks(poi, wcfg) + reread_checks(wm, wcfg):
+            ctx.violation(sig, 'Workspace.model(): ' + detail, dict(case=case, workspace=wsd0, config={k: v for k, v in wcfg.items() if k != 'sigmas'}))
             found = True
+        # Workspace.model(poi_name=...) : every other one-component parameter as the parameter of interest
+        alts = [nm for nm, (a, b) in zip(wcfg['par_order'], wcfg['par_slices']) if b - a == 1 and nm != poi]
+        for alt in prng.sample(alts, min(len(alts), 2)):
+            stats['poi_switches'] += 1
+            try:
+                am = ws.model(poi_name=alt, modifier_settings={'normsys': {'interpcode': 'code4'}, 'histosys': {'interpcode': 'code4p'}})
+                acfg = engine.impl_config(am)
+            except Exception as e:
+                ctx.violation('poi-refused:' + core.exc_enum(e), 'Workspace.model(poi_name=%s) refused for a one-component parameter: %s' % (alt, str(e)[:160]),
+                              dict(case=case, workspace=wsd0, poi_name=alt))
+                found = True
+                continue
+            d = [k for k in wcfg if k not in ('poi_index', 'poi_name') and wcfg[k] != acfg.get(k)]
+            for sig, detail in poi_checks(alt, acfg) + ([('poi-index', 'choosing another POI changes %r' % d)] if d else []):
+                ctx.violation(sig, 'Workspace.model(poi_name=%s): %s' % (alt, detail), dict(case=case, workspace=wsd0, poi_name=alt,
+                              config={k: v for k, v in acfg.items() if k != 'sigmas'}))
+                found = True
         if {k: v for k, v in wcfg.items()} != {k: v for k, v in cfg.items()}:
             d = [k for k in cfg if cfg[k] != wcfg.get(k)]
             ctx.violation('workspace-model-differs', 'Workspace.model() differs from Model(spec) in %r' % d, dict(case=case, keys=d))
@@ -161,6 +256,11 @@ def run(ctx):
             pm = pws.model(modifier_settings={'normsys': {'interpcode': 'code4'}, 'histosys': {'interpcode': 'code4p'}})
             pcfg = engine.impl_config(pm)
             pdata = pws.data(pm)
+            pdata_again = pws.data(pm)
+            if [float(x) for x in pdata_again] != [float(x) for x in pdata]:
+                ctx.violation('workspace-data-not-idempotent', 'second Workspace.data(model) on one workspace differs from the first',
+                              dict(case=case, workspace=pw, obs=obs, impl=[float(x) for x in pdata_again], expected=[float(x) for x in pdata]))
+                found = True
             pars = engine.gen_point(prng, spec, cfg)
             l1 = float(wm.logpdf(pars, data)[0])
             l2 = float(pm.logpdf(pars, pdata)[0])
@@ -207,11 +307,15 @@ def run(ctx):
     ndis = 0
     try:
         res = core.coq_eval(ctx, 'cfg', engine.HEADER, exprs, shard=25)
-        for case, cfg, r in zip(cases, impls, res):
+        for case, cfg, r, wd in zip(cases, impls, res, wsdatas):
             if cfg is None:
                 continue
             mo = engine.decode_case(r)
             d = [('build', 'ok', mo['build'])] if mo['build'] != 'ok' else engine.diff_config(cfg, mo)
+            if wd is not None and mo['build'] == 'ok':
+                # the workspace's data vector against the MODEL's layout: observations in the model's channel order, then its auxdata
+                mexp = [core.frac(x) for cn in mo['channels'] for x in wd['obs'][cn]] + list(mo['auxdata'])
+                d += engine.diff_vec('workspace.data', wd['data'], mexp)
             if d:
                 ndis += 1
                 if ndis == 1:
@@ -224,16 +328,40 @@ def run(ctx):
                                                      first_disagreement=ctx.coverage.get('first_disagreement')), nofail=True)
     ctx.trusted += ['"never modifies the caller\'s specification" has no content in a pure model: harness-only deep comparison']
     ctx.coverage.update(evaluations=evaluations, distinct_nontrivial=len(sigs), stats=stats, model_impl_disagreements=ndis,
-                        rule='C01 spec generator with measurement overrides (inits, bounds, fixed, auxdata, sigmas, factors); every case: '
-                             'partition/length/override predicates on the reported configuration, Workspace.data layout, one random '
+                        rule='corpus, then the C01 spec generator (30% of the specs from a random subset of the modifier families) with '
+                             'measurement overrides (inits, bounds, fixed, auxdata, sigmas, factors); POI = none / a normfactor / any other '
+                             'one-component parameter (alpha, lumi, one-bin shapefactor, one-bin shapesys or staterror gamma); every case: '
+                             'partition/length/override/POI predicates on the reported configuration, every accessor read twice on one object, '
+                             'Workspace.data read five times (with/without auxdata) against observations + auxdata in the reported order and '
+                             'the stored observations compared afterwards, Workspace.model(poi_name=other one-component parameter), one random '
                              'permutation of all lists (config, data, logpdf equal), Workspace.build round trip, deep comparison of inputs; '
-                             'full configuration diffed with the Coq model. non-trivial = C01 rule or has overrides; distinct = shape signature',
+                             'full configuration (incl. poi_index) and the workspace data vector diffed with the Coq model. non-trivial = C01 '
+                             'rule or has overrides; distinct = shape signature',
                         samples=[dict(spec=cases[0]['spec'], config={k: v for k, v in (impls[0] or {}).items() if k in ('par_order', 'par_slices', 'auxdata', 'aux_order', 'fixed')})])
 
 
 def replay(body):
     import pyhf
+    logging.getLogger('pyhf').setLevel(logging.CRITICAL)
+    pyhf.set_backend('numpy')
     case = body['case']
-    m = engine.impl_build(case['spec'], case['poi'], case['st'])
-    print(json.dumps(engine.impl_config(m), indent=1, default=str))
+    ms = {'normsys': {'interpcode': 'code4'}, 'histosys': {'interpcode': 'code4p'}}
+    out = {}
+    if 'workspace' in body:
+        wsd = copy.deepcopy(body['workspace'])
+        ws = pyhf.Workspace(wsd)
+        m = ws.model(poi_name=body['poi_name'], modifier_settings=ms) if body.get('poi_name') else ws.model(modifier_settings=ms)
+        out['workspace_data_reads'] = [[float(x) for x in ws.data(m)], [float(x) for x in ws.data(m, include_auxdata=False)], [float(x) for x in ws.data(m)]]
+        out['observations_after'] = {o['name']: list(o['data']) for o in ws['observations']}
+    else:
+        m = engine.impl_build(case['spec'], case['poi'], case.get('st') or dict(normsys='code4', histosys='code4p'))
+    cfg = engine.impl_config(m)
+    out['config'] = cfg
+    out['second_read_equal'] = engine.impl_config(m) == cfg
+    out['poi'] = dict(requested=body.get('poi_name') or case.get('poi'), poi_index=cfg['poi_index'],
+                      name_at_index=cfg['par_names'][cfg['poi_index']] if cfg['poi_index'] is not None else None)
+    out['property_checks'] = [list(x) for x in partition_checks(cfg) + override_checks(case['spec'], cfg) + poi_checks(body.get('poi_name') or case.get('poi'), cfg)]
+    if 'expected' in body:
+        out['expected'] = body['expected']
+    print(json.dumps(out, indent=1, default=str))
     return 0
